@@ -80,10 +80,10 @@ def main(argv):
             continue
         if r["vacuous"]:
             vacuous.append(r["unit"])
-        mine = [o for o in r["obligations"] if run.owns(o, prop)]
+        mine = [o for o in r["obligations"] if run.owns(o, prop, r["unit"])]
         led = ledger.get(r["unit"], {})
         if led and led.get("src_hash") == r["src_hash"]:
-            want = [i for i in led.get("obligations", {}) if run.owns(dict(label=i.split("#", 1)[1].split(":", 1)[1] if "#" in i else i), prop)]
+            want = [i for i in led.get("obligations", {}) if run.owns(dict(label=i.split("#", 1)[1].split(":", 1)[1] if "#" in i else i), prop, r["unit"])]
             if len(mine) < len(want):
                 viol.append(dict(unit=r["unit"], id=r["unit"] + "#vacuity:fewer-obligations-than-ledger", verdict="not-proved",
                                  detail=f"{len(mine)} obligations generated, ledger has {len(want)} for identical source",
